@@ -24,8 +24,8 @@ EnumOut ==
 
 CaseOf(r) ==
   IF WellFormed(r.t)
-  THEN [id |-> r.id, t |-> r.t, wf |-> TRUE, pool |-> Pool(r.t)]
-  ELSE [id |-> r.id, t |-> r.t, wf |-> FALSE, pool |-> <<>>]
+  THEN [k |-> "case", id |-> r.id, t |-> r.t, wf |-> TRUE, pool |-> Pool(r.t)]
+  ELSE [k |-> "case", id |-> r.id, t |-> r.t, wf |-> FALSE, pool |-> <<>>]
 
 CasesOut ==
   LET ts == ndJsonDeserialize(IOEnv.VERIF_TYPES) IN
